@@ -8,7 +8,7 @@ import (
 
 func init() {
 	props["C03"] = c03
-	floors["C03"] = map[string]int{"C03.R1": 4, "C03.R2": 2, "C03.R3": 4, "C03.R5": 1, "C03.R6": 1}
+	floors["C03"] = map[string]int{"C03.R1": 4, "C03.R2": 2, "C03.R3": 4, "C03.R5": 1, "C03.R6": 1, "C03.R7": 1}
 }
 
 // synth502 checks, for an upstream-contact call whose error is tested, that
@@ -201,6 +201,7 @@ func c03(r *Report) {
 
 	c03R4(r)
 	c03R6(r)
+	c03R7(r)
 
 	r.Guard("C03.R5", "an origin that aborts a blind tunnel does not leave the client hanging: the end of a copy direction is passed on however the copy ended", func() {
 		tunnelEOSRule(r, hcr, tunnelCopiers(hcr))
